@@ -70,13 +70,15 @@ def _vals(ch: core.Chooser, shape: tuple, kind: str, nonzero: bool = False) -> d
         pool = [float("inf"), float("-inf"), 0.0, 1.5, -2.0, float("inf")]
     elif kind == "bool":
         pool = [True, False, True]
+    elif kind == "nan":
+        pool = [float("nan"), 1.0, -2.0, 0.0, float("nan"), 3.5]
     else:
         pool = [-2.5, -1.0, -0.75, 0.0, 0.0, 0.25, 0.25, 1.0, 1.5, 3.0] if not nonzero else [-2.5, -1.0, -0.5, 0.25, 0.5, 1.0, 2.0]
     # few distinct values => many ties
     if ch.chance(0.4):
         pool = ch.sample(pool, min(len(pool), 3))
     data = [ch.choice(pool) for _ in range(size)]
-    dtype = {"int": "int64", "float": "float64", "bool": "bool", "bigint": "int64", "uint8": "uint8", "uint64": "uint64", "inf": "float64", "largeint": "int64", "largefloat": "float64"}[kind]
+    dtype = {"int": "int64", "float": "float64", "bool": "bool", "bigint": "int64", "uint8": "uint8", "uint64": "uint64", "inf": "float64", "nan": "float64", "largeint": "int64", "largefloat": "float64"}[kind]
     dress = ch.below(3)
     if len(shape) >= 2 and ch.sub("layout").chance(0.15):
         dress = 3  # the same values held as a transposed (column-major) view
@@ -91,6 +93,8 @@ _FORCED_KIND: List[Optional[str]] = [None]
 def _kind(ch: core.Chooser) -> str:
     if _FORCED_KIND[0] is not None:
         return _FORCED_KIND[0]
+    # (bool and NaN data are outside the quantifier - "ints and floats ... repeated values, negatives, zeros" - and numpoly
+    #  differs from numpy there on the unchanged tree: True+True is 2, NaN does not propagate through maximum/min/argmin)
     return ch.weighted([(6, "int"), (4, "float"), (1, "largeint"), (1, "largefloat")])
 
 
